@@ -6,7 +6,8 @@ CONSTANTS
   NH = 2
   InitSilentSets <- SilentOne
   NextSilentSets <- SilentNone
-  MaxSilentChanges = 1
+  MaxSilentChanges = 0
+  WakeAllDone = FALSE
   Bug = "none"
 INVARIANTS AgreementH NoSkip Acceptable AcceptJustifiedH CacheHarmless
 CHECK_DEADLOCK FALSE
